@@ -188,29 +188,43 @@ def op_type(op: List) -> str:
 Key = Tuple
 
 
-def snapshot(node) -> Dict[Key, Dict]:
+def snapshot(node, prev: Optional[Dict[Key, Dict]] = None) -> Dict[Key, Dict]:
+    """(actual, visible, deleted) per named item. Items are named (folder name, file name); when several objects carry a
+    name (a database restore deletes the old file and copies a new one in; deleting a file twice leaves two deleted
+    namesakes) the item is the live object, else the object the previous snapshot followed, else the last deleted."""
     from primaite.simulator.network.hardware.node_operating_state import NodeOperatingState
 
+    prev = prev or {}
     out: Dict[Key, Dict] = {}
     for name, s in node.software_manager.software.items():
-        out[("sw", name)] = {"a": s.health_state_actual.name, "v": s.health_state_visible.name, "del": False}
+        out[("sw", name)] = {"a": s.health_state_actual.name, "v": s.health_state_visible.name, "del": False, "id": id(s)}
     fs = node.file_system
+    fo_c: Dict[Key, List] = {}
+    fi_c: Dict[Key, List] = {}
     for live, folders in ((True, fs.folders.values()), (False, fs.deleted_folders.values())):
         for fo in folders:
-            k = ("fo", fo.name)
-            if k in out:
-                continue
-            out[k] = {"a": fo.health_status.name, "v": fo.visible_health_status.name, "del": bool(fo.deleted) or not live}
+            fo_live = live and not fo.deleted
+            fo_c.setdefault(("fo", fo.name), []).append((fo, fo_live))
             for flive, files in ((True, fo.files.values()), (False, fo.deleted_files.values())):
                 for f in files:
-                    fk = ("fi", fo.name, f.name)
-                    if fk in out:
-                        continue
-                    out[fk] = {
-                        "a": f.health_status.name,
-                        "v": f.visible_health_status.name,
-                        "del": bool(f.deleted) or not flive or out[k]["del"],
-                    }
+                    fi_c.setdefault(("fi", fo.name, f.name), []).append((f, fo_live and flive and not f.deleted))
+
+    def choose(key, cands):
+        for o, is_live in cands:
+            if is_live:
+                return o, True
+        want = prev.get(key, {}).get("id")
+        for o, _ in cands:
+            if id(o) == want:
+                return o, False
+        return cands[-1][0], False
+
+    for key, cands in fo_c.items():
+        o, is_live = choose(key, cands)
+        out[key] = {"a": o.health_status.name, "v": o.visible_health_status.name, "del": not is_live, "id": id(o)}
+    for key, cands in fi_c.items():
+        o, is_live = choose(key, cands)
+        out[key] = {"a": o.health_status.name, "v": o.visible_health_status.name, "del": not is_live, "id": id(o)}
     out[("node",)] = {"on": node.operating_state == NodeOperatingState.ON}
     return out
 
@@ -376,7 +390,7 @@ def run_case(case: Dict) -> CaseResult:
             except Exception as e:
                 res.violate(f"raise:{ot}:{exc_sig(e)}", f"{when}: request {req} raised {exc_msg(e)}")
                 break
-        cur = snapshot(node)
+        cur = snapshot(node, prev)
         ok = status == "success"
         node_on = prev[("node",)]["on"] and cur[("node",)]["on"]
 
@@ -454,6 +468,20 @@ def run_case(case: Dict) -> CaseResult:
                     p.excluded.add(k)
 
         comp = [p for p in pend if p.completable(is_tick, kt)]
+        db_fix_done = (
+            ("sw", "database-service") in prev
+            and prev[("sw", "database-service")]["a"] == "FIXING"
+            and cur[("sw", "database-service")]["a"] != "FIXING"
+        )
+        # Inside one tick the database fix (service timestep) can rewrite the database file and a folder restore (file
+        # system timestep, after the folder's scan) can repair it again: a folder scan completing between the two reads
+        # a true health that neither the snapshot before nor the one after the tick shows.
+        db_volatile = (
+            is_tick and db_fix_done and any(p.kind == "restore" and p.target == "database" for p in comp)
+        )
+
+        def volatile(key: Key) -> bool:
+            return db_volatile and key[0] == "fi" and key[1] == "database"
 
         # ---- A. visible health -------------------------------------------------------------------------------------
         attributed: Dict[int, Pending] = {}
@@ -485,7 +513,7 @@ def run_case(case: Dict) -> CaseResult:
                                 f"(pending: {[(p.kind, p.target, p.d, p.k0) for p in pend]}, tick {kt})")
                 stop = True
                 continue
-            if kd != "folder" and now["v"] not in (was["a"], now["a"]):
+            if kd != "folder" and now["v"] not in (was["a"], now["a"]) and not volatile(key):
                 src = ot if instant else cands[0].kind
                 res.violate(f"scan-value-mismatch:{kd}:{src}",
                             f"{when}: scan set visible health of {key} to {now['v']} but actual was {was['a']} before "
@@ -514,11 +542,6 @@ def run_case(case: Dict) -> CaseResult:
                             f"{cur[key]['a']}")
 
         # ---- C. true health of software and files -------------------------------------------------------------------
-        db_fix_done = (
-            ("sw", "database-service") in prev
-            and prev[("sw", "database-service")]["a"] == "FIXING"
-            and cur[("sw", "database-service")]["a"] != "FIXING"
-        )
         for key, now in cur.items():
             if key[0] in ("node", "fo") or key not in prev:
                 continue
@@ -622,6 +645,8 @@ def run_case(case: Dict) -> CaseResult:
                 for key, now in cur.items():
                     if key[0] in ("sw", "fi") and p.covers(key) and key in prev:
                         p.values.setdefault(key, set()).update((prev[key]["a"], now["a"]))
+                        if volatile(key):
+                            p.excluded.add(key)  # an intermediate value the snapshots cannot show
         if is_tick:
             for p in pend:
                 if p.completed is not None or p.interrupted or p.flagged or kt != p.latest:
